@@ -17,6 +17,8 @@ WHAT = {
     "language-dup": "--update writes a test once per :language(..) line (duplicates it)",
     "suffix-lost": "--update rewrites delimiters without the file's suffix",
     "preamble-deleted": "--update deletes the text in front of the first test header",
+    "read-differs": "the tests returned by the real reader (names, attributes, inputs) are not the ones delimited in the file: a "
+                    "delimiter line is a run of >= 3 '=' / '-' followed by EXACTLY the file's suffix and the line ending",
     "key-changed": "a test's name/attributes/input differ after --update",
     "missing-tests": "tests are missing after --update",
     "extra-tests": "additional tests appear after --update",
@@ -96,6 +98,7 @@ def run(ctx):
     sx_total = sx_class = 0
     strip_total = strip_ok = strip_real_ok = 0
     acts_total = acts_ok = ent_total = ent_canon = ent_shape = ent_expect = 0
+    wf_canon = wf_simples = simples_not_canon = near_all = near_ws = near_ws_canon_files = 0
     for line in out.split("\n"):
         if not line.strip():
             continue
@@ -131,6 +134,12 @@ def run(ctx):
         ent_canon += int(kv.get("canon", "0"))
         ent_shape += int(kv.get("shape", "0"))
         ent_expect += int(kv.get("expectok", "0"))
+        wf_canon += kv.get("canonf") == "1"
+        wf_simples += kv.get("simples") == "1"
+        simples_not_canon += kv.get("simples") == "1" and kv.get("canonf") != "1"
+        near_all += int(kv.get("nearall", "0"))
+        near_ws += int(kv.get("nearws", "0"))
+        near_ws_canon_files += kv.get("canonf") == "1" and int(kv.get("nearws", "0")) > 0
         if kv.get("acts") != kv.get("actok"):
             corr_viol.append(("corr", "an answer of the real parser violates ActOK (hypothesis of update_idempotent_partial: plain rendering "
                               "without fields, equal renderings when there are no fields, error-free renderings in the format class)",
@@ -203,6 +212,19 @@ def run(ctx):
         "with_expectation_empty_or_balanced_or_cst": ent_expect}
     ctx.oblige("tie:real-entries-have-EntryOKG-shape-and-canonical-flags", ent_shape == ent_total and ent_canon == ent_total,
                "shape %d, canonical %d of %d" % (ent_shape, ent_canon, ent_total))
+    # well-formedness guard of the preservation / idempotence clauses and its relation to the theorems' hypothesis
+    ctx.oblige("tie:SimpleS-implies-canonical-form-reads-back (roundtrip_built)", simples_not_canon == 0,
+               "%d files satisfy SimpleS but their canonical form does not read back" % simples_not_canon)
+    need_files = 150 if ctx.tier == "quick" else 1500
+    ctx.oblige("inputs:judged-files-are-mostly-well-formed", ctx.replay or wf_canon * 10 >= evals * 6,
+               "canonical-form guard holds on %d of %d files (SimpleS on %d)" % (wf_canon, evals, wf_simples))
+    ctx.oblige("inputs:near-delimiter-body-lines", ctx.replay or (near_ws >= need_files // 3 and near_ws_canon_files >= need_files // 5),
+               "%d input lines that are a dash run followed by white space / the suffix with white space (not delimiters), in %d "
+               "well-formed files; %d delimiter-like input lines in all" % (near_ws, near_ws_canon_files, near_all))
+    ctx.coverage["well_formedness_guard"] = {
+        "files": evals, "canonical_form_reads_back": wf_canon, "SimpleS": wf_simples, "SimpleS_but_not_canonical": simples_not_canon,
+        "delimiter_like_input_lines": near_all, "near_delimiter_whitespace_suffix_lines": near_ws,
+        "well_formed_files_with_such_lines": near_ws_canon_files}
     ctx.coverage["format_class"] = {"printed_error_free_sexps": sx_total, "in_theorem_class": sx_class}
     ctx.oblige("corr:directory-update-second-file", corr["bupd1"] + corr["bupd2"] == 0,
                "%d disagreements" % (corr["bupd1"] + corr["bupd2"]))
